@@ -171,8 +171,13 @@ def clobber_case(sc):
     outputs = ref["outputs"]
     pre = [outputs[i - 1] for i in sc["pre"]]
     junk = b"" if sc.get("empty") else b"JUNK" * 20000      # pre-existing files: 80 kB of junk, or zero-length files
-    for n in pre:
-        (d / n).write_bytes(junk)
+    if sc.get("rerun"):
+        # the pre-existing files are the outputs of an earlier run of the tool itself, in the same process, into the same directory
+        first = ["-a", ref["inputs"][0], "-p", ref["inputs"][1], "-o", d / f"x.1.{sc['out_fmt']}"] + (["--write-log"] if sc["log"] else ["--no-write-log"])
+        run_inproc(first)
+    else:
+        for n in pre:
+            (d / n).write_bytes(junk)
     before = snapshot(d)
     args = ["-a", ref["inputs"][0], "-p", ref["inputs"][1], "-o", d / f"x.1.{sc['out_fmt']}"] + (["--write-log"] if sc["log"] else ["--no-write-log"]) \
         + (["--clobber"] if sc["clobber"] else ["--no-clobber"])
@@ -185,7 +190,7 @@ def clobber_case(sc):
             rc = rc or 98
     after = snapshot(d)
     after_n = snapshot(d, norm=[str(d)])
-    t = {"tid": sc["tid"], "cfg": sc["cfg"] + "/" + sc["in_fmt"] + "->" + sc["out_fmt"] + ("/log" if sc["log"] else "/nolog") + ("/empty-files" if sc.get("empty") else ""), "outputs": outputs,
+    t = {"tid": sc["tid"], "cfg": sc["cfg"] + "/" + sc["in_fmt"] + "->" + sc["out_fmt"] + ("/log" if sc["log"] else "/nolog") + ("/empty-files" if sc.get("empty") else "") + ("/after-an-earlier-run" if sc.get("rerun") else ""), "outputs": outputs,
          "pre": sc["pre"], "clobber": sc["clobber"], "exit": rc,
          "named": [i for i, n in enumerate(outputs, 1) if str(d / n) in text],
          "unchanged": [i for i, n in enumerate(outputs, 1) if n in before and after.get(n) == before[n]],
